@@ -331,6 +331,7 @@ class Dex:
                 same = V == Xt
                 V = np.where(same, np.where(Xt == xl, xu, xl), V)
             yield {"variant": ["bin", "exp"][t % 2], "CR": gen_CR(rng), "alo": bool(rng.randint(8) > 0),
+                   "as_callable": bool(rng.randint(6) == 0), "bad_variant": bool(rng.randint(40) == 0),
                    "xl": xl, "xu": xu, "Xt": Xt, "V": V, "seed": int(rng.randint(2**31 - 1))}
 
     @staticmethod
@@ -344,7 +345,7 @@ class Dex:
         from pymoo.core.population import Population
         from pymoode.operators.dex import DEX
         from pymoode.operators.variant import DifferentialVariant
-        rec = Record("dex", {k: case[k] for k in ("variant", "CR", "alo", "seed")},
+        rec = Record("dex", {k: case.get(k) for k in ("variant", "CR", "alo", "as_callable", "bad_variant", "seed")},
                      {k: case[k] for k in ("xl", "xu", "Xt", "V")})
         Xt = np.array(case["Xt"], dtype=float, copy=True)
         V = np.array(case["V"], dtype=float, copy=True)
@@ -354,7 +355,13 @@ class Dex:
         np.random.seed(case["seed"])
         with Recorder("replay" if replay is not None else "record", replay) as R:
             try:
-                op = DEX(variant=case["variant"], CR=case["CR"], at_least_once=case["alo"])
+                from pymoode.operators import dex as _dexmod
+                v = case["variant"]
+                if case.get("bad_variant"):
+                    v = "binomial"                         # not a known name: the constructor must refuse it
+                elif case.get("as_callable"):
+                    v = {"bin": _dexmod.cross_binomial, "exp": _dexmod.cross_exp}[v]      # user-supplied callable
+                op = DEX(variant=v, CR=case["CR"], at_least_once=case["alo"])
                 matings = DifferentialVariant.merge_columnwise(pop, mut)
                 rec.out["U"] = np.array(op.do(prob, matings).get("X"), dtype=float)
             except Exception as e:
@@ -373,7 +380,7 @@ class Dex:
     @staticmethod
     def encode(rec):
         c = rec.cfg
-        t = ["dex", c["variant"], proto.fbits(c["CR"]), "1" if c["alo"] else "0"] \
+        t = ["dex", "unknown" if c.get("bad_variant") else c["variant"], proto.fbits(c["CR"]), "1" if c["alo"] else "0"] \
             + proto.fmat(rec.inp["Xt"]) + proto.fmat(rec.inp["V"]) + proto.events(rec.draws)
         return " ".join(t)
 
@@ -395,6 +402,8 @@ class Dex:
 
     @staticmethod
     def oracle_C12(rec):
+        if rec.cfg.get("bad_variant"):
+            return [] if (rec.err or "").startswith("ValueError") else ["an unknown crossover variant was not refused"]
         if rec.err is not None:
             return ["DEX raised: " + rec.err]
         bad = list(rec.frames)
@@ -426,6 +435,8 @@ class Dex:
 
     @staticmethod
     def oracle_C01(rec):
+        if rec.cfg.get("bad_variant"):
+            return []
         if rec.err is not None:
             return ["DEX raised: " + rec.err]
         U, xl, xu = rec.out["U"], rec.inp["xl"], rec.inp["xu"]
@@ -791,7 +802,10 @@ class Variant:
         sink = {}
         kw = dict(variant=vs, CR=case["CR"], F=F, gamma=case["gamma"], de_repair=case["repair"] or "bounce-back")
         if case["pm"]:
-            kw["genetic_mutation"] = PM(prob=0.5, eta=10)
+            # also through the deprecated keyword names (`pm=`, `mutation=`), which must behave identically
+            key = ["genetic_mutation", "pm", "mutation"][case["seed"] % 3]
+            kw[key] = PM(prob=0.5, eta=10)
+            rec.tags.add("pm-keyword:" + key)
         np.random.seed(case["seed"])
         with Recorder("replay" if replay is not None else "record", replay) as R:
             try:
